@@ -831,8 +831,10 @@ def main(a, boot_info):
 
     def extra_fn(agg):
         e = dict(extra)
-        complete = agg.get("first_k_skipped") is None and nruns >= n and not agg.get("harness")
+        cut = agg.get("first_k_skipped")
+        complete = (cut is None or cut >= ntr) and nruns >= ntr and not agg.get("harness")
         e["truncation_space_exhaustive"] = bool(a.tier == "thorough" and complete)
+        e["enumerated_part_complete"] = bool(complete)  # corpus + truncations + zone-tail sweep all ran
         e["exhaustive"] = False  # the corruption space is sampled; only the truncation sub-space can be complete
         return e
 
